@@ -43,6 +43,7 @@ type caseRec struct {
 	CCommits []int                `json:"cCommits"`
 	DupPath  bool                 `json:"dupPath"`
 	Missing  bool                 `json:"missing"`
+	WktVendored bool              `json:"wktVendored"`
 	Newest   int                  `json:"newest"`
 	AnyCycle bool                 `json:"anyCycle"`
 	FromTargets []string          `json:"fromTargets"`
@@ -120,6 +121,9 @@ func (p *provider) GetCommitsForCommitKeys(context.Context, []bufmodule.CommitKe
 
 func bFiles(c caseRec, marker string) map[string][]byte {
 	m := map[string][]byte{pathOf["b1"]: render("b1", c.ImpB1, "", marker)}
+	if c.WktVendored {
+		m[pathOf["wkt"]] = []byte("syntax = \"proto3\";\npackage google.protobuf;\n// vendored copy\nmessage Duration { int64 seconds = 1; int32 nanos = 2; }\n")
+	}
 	if c.DupPath {
 		m[pathOf["c1"]] = []byte("syntax = \"proto3\";\npackage pc1;\n// a second provider of this path\nmessage Mc1 { string id = 1; }\n")
 	}
@@ -136,7 +140,7 @@ func cFiles(commit int) map[string][]byte {
 
 func describe(c caseRec) map[string]any {
 	return map[string]any{"a1_imports": c.ImpA1, "a2_imports": c.ImpA2, "b1_imports": c.ImpB1, "B": c.BKind, "C_commits_in_order_added": c.CCommits,
-		"B_also_provides_c1_path": c.DupPath, "a2_imports_missing_path": c.Missing}
+		"B_also_provides_c1_path": c.DupPath, "B_vendors_the_wkt_a1_may_import": c.WktVendored, "a2_imports_missing_path": c.Missing}
 }
 
 func build(ctx context.Context, c caseRec) (bufmodule.ModuleSet, error) {
